@@ -13,8 +13,12 @@
    C02_parse_format for every list of well-formed actions, parsing the formatted
                     text gives back exactly that list, one action per line.
                     Well-formed (wf_action): verbatim fields (xpaths, names,
-                    prefixes, URIs) contain no comma, double quote or line-break
-                    character and no leading/trailing white space; JSON-encoded
+                    prefixes, URIs) contain no line-break character, no
+                    leading/trailing white space, and every comma stands inside a
+                    double-quoted literal that is closed again (rawq_ok: in particular
+                    no comma and no double quote at all; but also a hand-written
+                    path such as /doc/para[@id="intro, part 1"], at which
+                    DiffParser._split does not split); JSON-encoded
                     fields (text, attribute values, comments) are None or ANY
                     string of non-surrogate code points <= U+10FFFF; integer
                     fields are any integer.
@@ -60,3 +64,28 @@ Example C02_wf_example :
      GA [68;101;108;101;116;101;78;97;109;101;115;112;97;99;101] [PStr [110;115;48]]].
 Proof. apply wf_actionsb_spec. vm_compute. reflexivity. Qed.
 Print Assumptions C02_wf_example.
+
+(* ... and a hand-written script whose path holds a double-quoted literal with a comma:
+   DeleteNode /doc/para[@id="intro, part 1"]   and   UpdateTextIn /a/b[@k="x,y"][2] "t, u"
+   -- well formed, and the round trip computed *)
+Definition quoted_script : list gaction :=
+  [GA [68;101;108;101;116;101;78;111;100;101]
+      [PStr [47;100;111;99;47;112;97;114;97;91;64;105;100;61;34;105;110;116;114;111;44;32;112;97;114;116;32;49;34;93]];
+   GA [85;112;100;97;116;101;84;101;120;116;73;110]
+      [PStr [47;97;47;98;91;64;107;61;34;120;44;121;34;93;91;50;93]; PStr [116;44;32;117]]].
+Example C02_quoted_path_example :
+  Forall (wf_action tables) quoted_script /\
+  forallb (wf_actionb tables) quoted_script = false /\          (* outside the plain test, inside the property *)
+  match format tables quoted_script with
+  | Ok text => match parse tables text with Ok acts => length acts = 2%nat /\ length (splitlines text) = 2%nat | Err _ => False end
+  | Err _ => False
+  end.
+Proof.
+  split; [|split].
+  - apply Forall_forall. intros a Ha. apply wf_actionqb_spec.
+    assert (H : forallb (wf_actionqb tables) quoted_script = true) by (vm_compute; reflexivity).
+    rewrite forallb_forall in H. apply H, Ha.
+  - vm_compute. reflexivity.
+  - vm_compute. split; reflexivity.
+Qed.
+Print Assumptions C02_quoted_path_example.
